@@ -12,6 +12,9 @@ import (
 
 type zzProbe struct{}
 
+// zzBye is what a stopping child tells its parent from inside its Stopped handler.
+type zzBye struct{ From string }
+
 // zzRespawn asks a parent to spawn a replacement for the child with index K under the same name and id.
 type zzRespawn struct{ K int }
 
@@ -32,6 +35,8 @@ type zzTree struct {
 	replaced  map[string]*PID // replacement children by id
 	gen       map[string]int  // incarnations started per id
 	stoppedN  map[string]int  // Stopped deliveries per id
+	bye       bool            // stopping children say goodbye to their parent
+	late      bool            // some node was handed a message after it had handled Stopped
 }
 
 type zzNode struct {
@@ -60,6 +65,12 @@ func (n *zzNode) Receive(c *Context) {
 				pid := c.SpawnChild(func() Receiver { return &zzNode{t: t, depth: d} }, "c", WithID(string(rune('0'+k))))
 				t.kids[id] = append(t.kids[id], pid)
 			}
+		}
+	case zzBye:
+		// queued while this node may already be shutting down (it waits for its children inside cleanup):
+		// once it has handled Stopped nothing may be delivered to it any more
+		if t.stopped[id] {
+			t.late = true
 		}
 	case zzRespawn:
 		m := c.Message().(zzRespawn)
@@ -93,6 +104,9 @@ func (n *zzNode) Receive(c *Context) {
 		}
 		chk(id)
 		t.stopped[id] = true
+		if par := c.Parent(); par != nil && t.bye {
+			c.engine.Send(par, zzBye{From: id})
+		}
 	case zzProbe:
 		l := []string{}
 		for _, p := range c.Children() {
@@ -108,6 +122,8 @@ func ZZ_C08() {
 	e, _ := zzBareEngine()
 	t := &zzTree{e: e, D: D, F: F, stopped: map[string]bool{}, kids: map[string][]*PID{}, parentOf: map[string]string{}, listed: map[string][]string{},
 		replaced: map[string]*PID{}, gen: map[string]int{}, stoppedN: map[string]int{}}
+	// mode 3 = mode 0 without the third party and without the panicking child (no known finding is reachable):
+	// used by C04 for "nothing is delivered after Stopped" when messages are queued during the shutdown
 	mode := zzrt.Param("mode") // 0 shutdown interleavings, 1 respawn of the root id during shutdown (C10), 2 a stopping child is replaced (Children bookkeeping)
 	root := e.Spawn(func() Receiver { return &zzNode{t: t, depth: 0} }, "root", WithID("r"))
 	zzrt.Quiesce()
@@ -151,6 +167,9 @@ func ZZ_C08() {
 		child := t.kids[root.ID][third]
 		zzrt.Go(func() { e.Poison(child) })
 		zzrt.Reach("third-party-poisons-child-during-shutdown")
+	}
+	if (mode == 0 || mode == 3) && third < 0 && victim < 0 {
+		t.bye = true
 	}
 	if mode == 0 && third < 0 && victim < 0 && zzrt.Choose(2) == 1 {
 		// one child panics, once, while handling Stopped during the shutdown cascade
@@ -212,6 +231,7 @@ func ZZ_C08() {
 	if t.early && third >= 0 {
 		zzrt.Fail("C08:parent-handled-Stopped-before-a-descendant-was-stopped[child-poisoned-by-third-party-during-shutdown]")
 	}
+	zzrt.Assert(!t.late, "C04:delivery-after-Stopped[message-queued-while-the-actor-was-shutting-down]")
 	zzrt.Assert(!t.early, "C08:parent-handled-Stopped-before-a-descendant-was-stopped")
 	zzrt.Assert(!rootDoneEarly, "C08:stop-context-done-before-tree-stopped")
 	if !ctx.(*context.CancelCtx).IsDone() {
